@@ -381,8 +381,9 @@ def main():
     if status_violation:
         for x in broken:
             print("BROKEN %s: %s" % (x["kind"], (x.get("obligation") or "")))
-            if os.environ.get("VERIF_VERBOSE"):
-                print(x.get("detail", ""))
+            det = (x.get("detail") or "").strip().splitlines()
+            for ln in (det if os.environ.get("VERIF_VERBOSE") else det[-12:]):
+                print("    | " + ln[:300])
         for v in new_viol[:5]:
             print("FAILING INPUT [%s]: %s" % (v.get("kind"), v.get("desc")))
         suffix = "" if new_viol else " no-failing-input-found"
